@@ -1,9 +1,147 @@
+// Command gosx is the symbolic executor front end.
+//
+//	gosx run <pkg> <Func> [flags]         explore one harness function (debugging)
+//	gosx check <property-id> [--tier quick|thorough]
+//	gosx replay <file>
 package main
 
 import (
-	_ "golang.org/x/tools/go/packages"
-	_ "golang.org/x/tools/go/ssa"
-	_ "golang.org/x/tools/go/ssa/ssautil"
+	"flag"
+	"fmt"
+	"os"
+	"sort"
+	"strings"
+	"time"
+
+	"gosx/sym"
 )
 
-func main() {}
+const harnessDir = "/verif/harness"
+const modulePath = "github.com/vmware/go-ipfix"
+
+func main() {
+	if len(os.Args) < 2 {
+		usage()
+	}
+	switch os.Args[1] {
+	case "run":
+		os.Exit(cmdRun(os.Args[2:]))
+	case "check":
+		os.Exit(cmdCheck(os.Args[2:]))
+	case "replay":
+		os.Exit(cmdReplay(os.Args[2:]))
+	default:
+		usage()
+	}
+}
+
+func usage() {
+	fmt.Fprintln(os.Stderr, "usage: gosx run <pkg> <Func> | check <id> [--tier quick|thorough] | replay <file>")
+	os.Exit(2)
+}
+
+func defaultConfig() sym.Config {
+	return sym.Config{
+		InstrBudget:     20_000_000,
+		KeyEnumLimit:    24,
+		MaxFanout:       4096,
+		Workers:         16,
+		SolverTimeoutMs: 30000,
+		ModulePath:      modulePath,
+		Params:          map[string]int64{},
+	}
+}
+
+func cmdRun(args []string) int {
+	fs := flag.NewFlagSet("run", flag.ExitOnError)
+	workers := fs.Int("workers", 16, "workers")
+	trace := fs.Bool("trace", false, "trace paths")
+	tier := fs.Int("tier", 0, "tier")
+	conc := fs.Int("concrete", 0, "run N concrete executions instead")
+	clock := fs.String("clock", "", "clock mode")
+	maxPaths := fs.Int64("maxpaths", 0, "stop after N paths")
+	lazy := fs.Bool("lazy", false, "lazy make")
+	hang := fs.Bool("hang", false, "budget overrun is a violation")
+	budget := fs.Int64("budget", 20_000_000, "instruction budget per path")
+	fs.Parse(args)
+	if fs.NArg() < 2 {
+		usage()
+	}
+	pkg, fn := fs.Arg(0), fs.Arg(1)
+	p, err := sym.Load(harnessDir, nil, pkg)
+	if err != nil {
+		fmt.Fprintln(os.Stderr, "load:", err)
+		return 2
+	}
+	fmt.Printf("loaded %d packages: load %.1fs ssa %.1fs\n", p.NumPkgs, p.LoadTime.Seconds(), p.SSATime.Seconds())
+	cfg := defaultConfig()
+	cfg.Workers = *workers
+	cfg.Trace = *trace
+	cfg.Tier = *tier
+	cfg.ClockMode = *clock
+	cfg.MaxPaths = *maxPaths
+	cfg.LazyMake = *lazy
+	cfg.HangIsViolation = *hang
+	cfg.InstrBudget = *budget
+	e := sym.NewEngine(p.Prog, cfg)
+	if err := e.Bind(p, fn); err != nil {
+		fmt.Fprintln(os.Stderr, err)
+		return 2
+	}
+	t0 := time.Now()
+	if *conc > 0 {
+		trs, err := e.RunConcrete(*conc, nil)
+		if err != nil {
+			fmt.Fprintln(os.Stderr, "concrete:", err)
+			return 2
+		}
+		for _, t := range trs {
+			fmt.Printf("trace outcome=%s draws=%d\n  %s\n", t.Outcome, len(t.Draws), strings.Join(t.Observes, "\n  "))
+		}
+	} else if err := e.Explore(); err != nil {
+		fmt.Fprintln(os.Stderr, "explore:", err)
+		return 2
+	}
+	printSummary(e, time.Since(t0))
+	if len(e.Problems) > 0 {
+		return 2
+	}
+	if len(e.Violations) > 0 {
+		return 1
+	}
+	return 0
+}
+
+func printSummary(e *sym.Engine, d time.Duration) {
+	s := e.Stats
+	fmt.Printf("paths=%d %v decisions=%d maxfanout=%d obligations=%d (unsat %d, sat %d, folded %d) branchq=%d solverq=%d solver=%.1fs steps=%d wall=%.1fs\n",
+		s.Paths, s.PathsByOutcome, s.Decisions, s.MaxFanout, s.Obligations, s.ObligUnsat, s.ObligSat, s.ObligFolded, s.BranchQueries, s.SolverQueries, s.SolverTime.Seconds(), s.Steps, d.Seconds())
+	var labels []string
+	for l, n := range e.Reach {
+		labels = append(labels, fmt.Sprintf("%s=%d", l, n))
+	}
+	sort.Strings(labels)
+	fmt.Println("reach:", strings.Join(labels, " "))
+	fmt.Println("repo functions executed:", len(e.Funcs))
+	for _, v := range e.Violations {
+		fmt.Printf("CEX %s %s:%s at %s: %s\n", v.Harness, v.Kind, v.Label, v.Site, v.Msg)
+		for _, d := range v.Draws {
+			if d.Kind == "bytes" || d.Kind == "str" {
+				b := d.Bytes
+				if len(b) > 40 {
+					fmt.Printf("    %s = %x... (%d)\n", d.Name, b[:40], len(b))
+				} else {
+					fmt.Printf("    %s = %x\n", d.Name, b)
+				}
+			} else {
+				fmt.Printf("    %s = %d\n", d.Name, d.Val)
+			}
+		}
+	}
+	for _, p := range e.Problems {
+		fmt.Println("PROBLEM:", p)
+	}
+	for _, s := range e.Samples {
+		fmt.Printf("sample: [%s] -> %s %v\n", s.Decisions, s.Outcome, s.Inputs)
+	}
+}
